@@ -1,6 +1,7 @@
 /* C01/C03 harness: decodes audio through the public API against a loaded grammar and dumps
  *   - the grammar as it was loaded (before fsg_search_init added filler loops / alternates),
  *   - the search FSG (fsg_model_arcs on ((fsg_search_t*)d->search)->fsg),
+ *   - for every word of the search FSG whether the DICTIONARY calls it a filler (SD; C03), dictionary facts (SR),
  *   - the whole history table (fsg_history_entry_get),
  *   - what decoder_hyp / decoder_seg_iter (+ seg_iter_word/_frames/_prob) returned,
  *   - the return value of every decoder_process_* call, decoder_n_frames, decoder_end_utt.
@@ -31,6 +32,21 @@
 #include <soundswallower/dict.h>
 #include <soundswallower/fe.h>
 #include <soundswallower/ckd_alloc.h>
+/* c01hyp: allocation size of the returned hypothesis string (only in the ASan flavour) */
+#if defined(__has_feature)
+#  if __has_feature(address_sanitizer)
+#    define VF_C01_HAVE_ASAN 1
+#  endif
+#endif
+#if !defined(VF_C01_HAVE_ASAN) && defined(__SANITIZE_ADDRESS__)
+#  define VF_C01_HAVE_ASAN 1
+#endif
+#ifndef VF_C01_HAVE_ASAN
+#  define VF_C01_HAVE_ASAN 0
+#endif
+#if VF_C01_HAVE_ASAN
+#  include <sanitizer/allocator_interface.h>
+#endif
 
 static decoder_t *dec;
 static const char *hmmdir;
@@ -364,6 +380,24 @@ static void cmd_dump(const char *tag)
         int32 dw = dict_wordid(dec->dict, fsg_model_word_str(fs->fsg, i));
         printf("SD %d %d\n", i, dw != BAD_S3WID && dict_filler_word(dec->dict, dw) ? 1 : 0);
     }
+    /* SR <nloop> <badrange> <silfiller> <badalt>: the hypotheses of Props/C03Fillers.lean on the decoder's dictionary as it
+     * is now: words the loop of fsg_search_add_silences visits / of them not dict_filler_word; <sil> is one; words whose
+     * next alternate has another base word */
+    {
+        dict_t *dd = dec->dict;
+        int32 w;
+        int nloop = 0, badrange = 0, badalt = 0;
+        for (w = dict_filler_start(dd); w < dict_filler_end(dd); ++w) {
+            if (w == dict_startwid(dd) || w == dict_finishwid(dd)) continue;
+            nloop++;
+            if (!dict_filler_word(dd, w)) badrange++;
+        }
+        for (w = 0; w < dict_size(dd); ++w) {
+            int32 a = dict_nextalt(dd, w);
+            if (a != BAD_S3WID && dict_basewid(dd, a) != dict_basewid(dd, w)) badalt++;
+        }
+        printf("SR %d %d %d %d\n", nloop, badrange, dict_filler_word(dd, dict_silwid(dd)) ? 1 : 0, badalt);
+    }
     n = fsg_history_n_entries(fs->history);
     for (i = 0; i < n; i++) {
         fsg_hist_entry_t *e = fsg_history_entry_get(fs->history, i);
@@ -383,6 +417,25 @@ static void cmd_dump(const char *tag)
     if (hyp) { if (*hyp) hexs(stdout, hyp); else printf("-"); }
     else printf("null");
     printf(" %d\n", score);   /* `score` was initialised to 0: untouched when there is no exit */
+    /* HB <allocated size> <strlen> <hex of the WHOLE allocated block> (c01hyp): the block fsg_search_hyp allocated for the
+     * string — exact requested size by ASan's allocator interface, `-` in a flavour built without ASan, 0 when the pointer
+     * is not the start of a live heap block.  tools/props/c01.py compares with Model/HypBuf.lean: len, len-1, every byte. */
+    if (!hyp) printf("HB null\n");
+    else {
+        size_t sl = strlen(hyp);
+#if VF_C01_HAVE_ASAN
+        size_t al = __sanitizer_get_allocated_size(hyp);
+        printf("HB %zu %zu ", al, sl);
+        if (al) vf_print_hex(stdout, (const unsigned char *)hyp, al); else printf("-");
+        {   /* self-test of the observer: it must report the requested size exactly */
+            void *t = calloc(1, 37);
+            printf(" st37=%zu\n", __sanitizer_get_allocated_size(t));
+            free(t);
+        }
+#else
+        printf("HB - %zu -\n", sl);
+#endif
+    }
     for (seg = decoder_seg_iter(dec); seg; seg = seg_iter_next(seg)) {
         int sf, ef;
         int32 ascr, lscr, prob;
